@@ -15,8 +15,11 @@ def patch(src, edits, path):
 
 RAND_ADD = '''
 // ---- verif overlay ----
-var verifOn bool
-var verifState uint64
+// On from process start with a fixed state, so that entropy drawn during package initialisation (for
+// example hash/maphash seeds cached in package variables) is the same in every process; verifSeed reseeds
+// it at the start of the simulated run.
+var verifOn = true
+var verifState uint64 = 0x243f6a8885a308d3
 
 //go:nosplit
 func verifNext() uint64 {
